@@ -52,9 +52,14 @@ def run(tier):
             others = [k for k in lin if k != "const" and k not in tgt and k not in pc]
             if not (len(tgt) == 1 and lin[tgt[0]] == 1 and len(pc) == 1 and lin[pc[0]] == -1 and consts == -1 and not others):
                 ok_lin = False
+        # a success path on which no single range-checked displacement term feeds the field (the term is adjusted on the way) is no better
+        relf = [f for f in g["findings"] if f[0] in ("rel", "bytes") and not f[1]]
+        if relf:
+            ok_lin = False
         rep.ob("C03.linear|%s" % tag, ok_lin,
                "%s: displacement = target − current_address − 1 (%s)" % (form, shown) if ok_lin else
-               "%s: the displacement term is not target − current_address − 1: %s" % (form, [l["linear"] for l in lins] or "no term found"),
+               ("%s: on some success path the field is not fed by the one range-checked term target − current_address − 1: %s" % (form, relf[0][2]) if relf else
+                "%s: the displacement term is not target − current_address − 1: %s" % (form, [l["linear"] for l in lins] or "no term found")),
                detail={"terms": lins},
                sample={"row": form, "displacement term": shown, "linear form": lins[0]["linear"] if lins else None})
         acc = g["accepted"].get(L)
